@@ -26,6 +26,8 @@ import mirlib  # noqa: E402
 from core import AnchorLost, Ctx, Finding, RuleReport, load_known_findings  # noqa: E402
 import registry  # noqa: E402
 
+
+
 CONFIGS = {
     "default": [],
     "futures": ["--features", "futures"],
@@ -191,6 +193,11 @@ def write_evidence(evdir, prop, pdef, tier, seed, reports, violations, known_hit
         "known_findings_hit": [f.key for f, _ in known_hit],
         "exhaustive": False,
     }
+    if level == "translation_validation":
+        # programs = declarations of the corpus, each in both front-end syntaxes; disagreements_checked = table cells compared
+        progs_n = sum(len(r.analysed) for r in reports if r.rule == "R-DERIVE-EXPANSION")
+        cov["programs"] = max(1, 2 * progs_n)
+        cov["disagreements_checked"] = sum(r.obligations for r in reports if r.rule == "R-DERIVE-EXPANSION")
     ev = {
         "property_id": prop,
         "tier": tier,
